@@ -48,7 +48,7 @@ class C07(Check):
             'Non-trivial: a file whose queries touch a bit >= 32 or an alias; distinct by hash of definition+queries.')
     ASSUMPTIONS = ['file content in upper case, one label per bit, distinct labels per group (property domain)',
                    'negative numpy int64 values are read as their two\'s complement bit pattern']
-    REQUIRED_COUNTERS = ('files_with_columns_in_another_order', 'names_longer_than_declared_width', 'alias_of_alias_definitions', 'queries_touching_bit63', 'alias_queries', 'keyerrors_expected_and_seen', 'roundtrips_of_values_without_defined_bits')
+    REQUIRED_COUNTERS = ('exist_queries_with_a_label_asked_twice', 'queries_with_blank_or_composite_unknown_labels', 'files_with_columns_in_another_order', 'names_longer_than_declared_width', 'alias_of_alias_definitions', 'queries_touching_bit63', 'alias_queries', 'keyerrors_expected_and_seen', 'roundtrips_of_values_without_defined_bits')
 
     def setup(self):
         import pydl.pydlutils.sdss as S
@@ -144,7 +144,12 @@ class C07(Check):
             elif op == 'exist':
                 sub = [recase(rng, l) for l in rng.sample(labels, min(len(labels), rng.choice([0, 1, 1, 2, 3])))]
                 if rng.random() < 0.5:
-                    sub.insert(rng.randint(0, len(sub)), 'ZZ_NOT_A_LABEL_' + str(rng.randint(0, 99)))
+                    # a label that is not defined: an ordinary name, the empty string, blanks, or two defined labels in one string
+                    # (one string is one label)
+                    sub.insert(rng.randint(0, len(sub)), rng.choice(['ZZ_NOT_A_LABEL_' + str(rng.randint(0, 99))] * 3 + ['', ' ', ' '.join(rng.sample(labels, min(2, len(labels)))) + ' ']))
+                if sub and rng.random() < 0.3:
+                    # the same label asked twice (possibly in another letter case): one answer per label asked
+                    sub.insert(rng.randint(0, len(sub)), recase(rng, rng.choice(sub)))
                 form = 'str' if len(sub) == 1 and rng.random() < 0.5 else 'list'
                 queries.append({'op': 'exist', 'group': gq if rng.random() < 0.8 else 'ZZ_NO_GROUP', 'labels': sub,
                                 'form': form, 'flagexist': rng.random() < 0.5, 'whichexist': rng.random() < 0.5})
@@ -153,7 +158,7 @@ class C07(Check):
                 if m == 0:
                     queries.append({'op': 'val', 'group': 'ZZ_NO_GROUP', 'labels': [rng.choice(labels)], 'form': 'list', 'unknown': 'group'})
                 elif m == 1:
-                    sub = rng.sample(labels, min(len(labels), 2)) + ['ZZ_NOT_A_LABEL']
+                    sub = rng.sample(labels, min(len(labels), 2)) + [rng.choice(['ZZ_NOT_A_LABEL', 'ZZ_NOT_A_LABEL', '', '  ', ' '.join(rng.sample(labels, min(2, len(labels)))) + ' '])]
                     rng.shuffle(sub)
                     queries.append({'op': 'val', 'group': gq, 'labels': sub, 'form': 'list', 'unknown': 'label'})
                 elif m == 2:
@@ -396,6 +401,9 @@ class C07(Check):
                 else:
                     exp = l
                 out.expect(r == exp and type(r) is type(exp), 'flagexist', 'got %r expected %r' % (r, exp), query=q)
+                ups = [x.upper() for x in q['labels']]
+                out.count('exist_queries_with_a_label_asked_twice', len(set(ups)) < len(ups))
+                out.count('queries_with_blank_or_composite_unknown_labels', any((not x.strip()) or ' ' in x for x in q['labels']))
                 if isalias:
                     touched_alias = True
                     out.count('alias_queries')
